@@ -22,6 +22,13 @@ Direct oracle (implementation only, judged by an independent Python reference):
     command-line refactoring on the same input and byte offsets (`format`, `reftest-rename`,
     `reftest-extract-variable`, `reftest-extract-function`, `reftest-wrap-in-dbg`,
     `reftest-add-type-annotation`, `reftest-destructure`, `check --fix --stdout`).
+  * the composed garden_pos_to_lsp_range: programs whose diagnostic / quickfix / symbol spans themselves
+    contain 2-, 3- and 4-byte characters with more text after them on the line (SPAN_TEMPLATES); every
+    published diagnostic range is compared with the Lean model's gardenPosToLspRange (driver op lsp_range)
+    and with the Python reference on the Garden byte offsets that `check --json` reports; the quickfix
+    edits applied per the spec must equal `check --fix --stdout`; documentSymbol ranges must be token
+    aligned. When the tree has the hook op `lsp_range` (patches/lsp-hook-range.diff) the composed function
+    is also compared with the model directly on all offset pairs of the small documents.
 """
 import itertools
 import json
@@ -873,7 +880,7 @@ def server_edits(ctx):
         nonascii = any(b > 0x7f for b in span)
         n_span_nonascii += 1 if nonascii else 0
         ctx.case((job[1], what, so_, eo_), nonascii)
-        replay = dict(program=job[1], what=what, source=src, file=out["file"], jsonl=out["jsonl"],
+        replay = dict(program=job[1], span=what, source=src, file=out["file"], jsonl=out["jsonl"],
                       garden_start_offset=so_, garden_end_offset=eo_, garden_line=l0, garden_end_line=l1,
                       server_range=got, model=m)
         bl = set(boundaries(src))
@@ -942,5 +949,7 @@ def run(ctx):
         "denotes the end of the document, a column inside a surrogate pair moves past the pair (the "
         "specification leaves both open); the Python applier is checked against the Lean applyEdit",
         "the correspondence between a Garden Position (byte offsets + line numbers from the lexer) and the "
-        "arguments of garden_pos_to_lsp_range is exercised only through the real server runs (part C)",
+        "arguments of garden_pos_to_lsp_range is exercised through the real server runs (part C: published "
+        "diagnostic ranges vs the model on the offsets `check --json` reports) and, when the tree has it, the "
+        "lsp_range hook op",
     ]
